@@ -5,5 +5,6 @@ CONSTANTS Inputs = {"src"}
  Results = {"r1", "r2"}
  ObjDigests = {"d1", "d2"}
  Correct = FALSE
+ CtxDep = FALSE
 INVARIANTS StageAgree
 CHECK_DEADLOCK FALSE
